@@ -397,12 +397,15 @@ def crash_failure(out, loc, repo):
     # the first goroutine dump after the message belongs to the crashing goroutine
     f, l = server_frame(tail.split("\n\n")[1].splitlines() if "\n\n" in tail else tail.splitlines(), repo)
     unit = loc.unit(f, l) or f
-    return {"kind": "process-crash", "case": f"unit={unit}" + use_tag(repo, f, l), "detail": f"{m.group(1)} at {f}:{l}"}
+    return {"kind": "process-crash", "case": f"unit={unit}" + use_tag(repo, f, l) + _VARIANT_TAG[0], "detail": f"{m.group(1)} at {f}:{l}"}
 
 
 # unit -> the function it was extracted from / is written in (facts["parents"]), and the unit names of the
 # pinned tree (corpus/C15/baseline_units.txt); filled by run()
 _ALT = {"parents": {}, "baseline": set(), "unit_classes": set()}
+# appended to crash / panic cases when the scheduler is NOT the guarded variant: a nil runner in a handler is then not
+# (only) F13f, and the anchored F13f signatures must not swallow it
+_VARIANT_TAG = [""]
 
 
 def origin_unit(u, cls=None):
@@ -450,10 +453,23 @@ def run(ctx):
     facts = regenerate(ctx)
     # the holder hypothesis is discharged through the scheduler tie (C01): regenerate its facts too
     variant = sched_variant(ctx)
+    if variant != "good":
+        # the expected scheduler variant is the all-fixed one (F13d = C01's F12b "grant after unload", F12a "duplicate expired
+        # event"): a tree that no longer implements it hands out runners that were unloaded.  The witness schedules the probe
+        # ran on the REAL scheduler are the failing inputs (replay: ./check C01 --replay with that sched-trace line).
+        vp = ctx.coverage.get("variant_probe") or {}
+        wit = (getattr(sched_common, "PROBE_F12B", []) if vp.get("f12b_kinds") else []) + \
+              (getattr(sched_common, "PROBE_F12A", []) if vp.get("f12a_kinds") else [])
+        ctx.violation("variant-regression", wit[0] if wit else "",
+                      f"the scheduler of this tree is not the guarded variant C15's holder ordering rests on (variant={variant}, "
+                      f"probe: {json.dumps(vp)}): on the witness schedule the real scheduler violates "
+                      f"{', '.join((vp.get('f12b_kinds') or []) + (vp.get('f12a_kinds') or [])) or 'the go/ast guard facts'} - a runner can be "
+                      f"handed to a request after it was unloaded (F13d) / unloaded while in use", no_input=not wit)
     ctx.lean_check(MODULES, THEOREMS)
     if ctx.lean_ok:
         rule_l1(ctx)
     loc = Locator(facts)
+    _VARIANT_TAG[0] = "" if variant == "good" else f" sched-variant={variant}"
     _ALT["parents"] = facts.get("parents") or {}
     _ALT["unit_classes"] = {(f["func"], f["cls"]) for f in facts["facts"]}
     bp = os.path.join(core.ROOT, "corpus", "C15", "baseline_units.txt")
@@ -530,15 +546,15 @@ def run(ctx):
             if f["kind"] == "panic-site":
                 m = re.search(r"site=server/([^:]+):(\d+)", f["case"])
                 if m:
-                    f["case"] = f"unit={loc.unit(m.group(1), int(m.group(2)))}" + use_tag(core.REPO, m.group(1), int(m.group(2)))
+                    f["case"] = f"unit={loc.unit(m.group(1), int(m.group(2)))}" + use_tag(core.REPO, m.group(1), int(m.group(2))) + _VARIANT_TAG[0]
                 sites.append(f)
         # a recovered panic seen on the HTTP side carries no site; it is the F13f panic only if EVERY panic gin recovered in
         # this process was a nil dereference at a use of the scheduled runner
-        only_f13f = bool(sites) and all(f["case"].endswith(" use=scheduled-runner") and "nil pointer dereference" in f["detail"]
+        only_f13f = bool(sites) and all(" use=scheduled-runner" in f["case"] and "nil pointer dereference" in f["detail"]
                                         for f in sites)
         for f in l2:
             if f["kind"] == "panic-recovered":
-                f["case"] += " panics=" + ("only-nil-scheduled-runner" if only_f13f else "other-sites")
+                f["case"] += " panics=" + ("only-nil-scheduled-runner" if only_f13f else "other-sites") + _VARIANT_TAG[0]
         ctx.classify(l2, matcher)
     ctx.stats["race_reports"] = races_total
     if not ctx.replay:
